@@ -910,9 +910,9 @@ def ob_dicts():
 def ob_strings():
     def h():
         P = {'S0': sym_str(choose(3, 'l0'), 'S0', alphabet='aB _'), 'S1': sym_str(1, 'S1', alphabet='aB _'), 'I0': sym_int('I0', -3, 3), 'I1': sym_int('I1', -3, 3),
-             'L0': sym_str(choose(4, 'll'), 'L0', alphabet='a\n\r\x0c')}
-        k = choose(15, 'prog')
-        s0, s1, i0, i1 = ('var', 'S0'), ('var', 'S1'), ('var', 'I0'), ('var', 'I1')
+             'L0': sym_str(choose(4, 'll'), 'L0', alphabet='a\n\r\x0c'), 'S2': sym_str(choose(3, 'l2'), 'S2', alphabet='aB _')}
+        k = choose(18, 'prog')
+        s0, s1, i0, i1, s2 = ('var', 'S0'), ('var', 'S1'), ('var', 'I0'), ('var', 'I1'), ('var', 'S2')
         progs = [
             [('assign', 'x', ('bin', '+', s0, s1)), ('assign', 'y', ('bin', '==', s0, s1))],
             [('assign', 'x', ('meth', s0, 'to_upper', [], {})), ('assign', 'y', ('meth', s0, 'to_lower', [], {}))],
@@ -929,6 +929,10 @@ def ob_strings():
             [('assign', 'x', ('meth', s0, 'substring', [i0], {})), ('assign', 'y', ('meth', s0, 'substring', [i0, i1], {})), ('assign', 'z', ('meth', ('str', 'foobar'), 'substring', [i0, i1], {}))],
             [('assign', 'x', ('bin', '/', s0, s1))],
             [('assign', 'x', ('meth', ('var', 'L0'), 'splitlines', [], {}))],
+            # the optional / second string of length 0..2: an EMPTY argument is not a missing one
+            [('assign', 'y', ('meth', s0, 'strip', [s2], {}))],
+            [('assign', 'x', ('meth', s0, 'startswith', [s2], {})), ('assign', 'y', ('meth', s0, 'endswith', [s2], {})), ('assign', 'z', ('meth', s0, 'contains', [s2], {})), ('assign', 'w', ('bin', 'in', s2, s0))],
+            [('assign', 'x', ('meth', s2, 'join', [('arr', [s0, ('str', 'q'), s0])], {})), ('assign', 'y', ('bin', '+', s0, s2)), ('assign', 'z', ('bin', '==', s0, s2))],
         ]
         differential(progs[k], P)
     return h
